@@ -506,3 +506,13 @@ def fx_widthcheck(fx):
     n1 = narrow.packed_value_checked(c1, fx, "widthfx::ok_build", r"::store_bits_static$")
     n2 = narrow.packed_value_checked(c2, fx, "widthfx::bad_build", r"::store_bits_static$")
     return n1 == 2 and n2 == 2 and not c1.violations and len(c2.violations) == 1
+
+
+def fx_record(fx):
+    from rules import tagkind
+    res = {}
+    for f in ("ok_put", "ok_put2", "bad_put"):
+        c = _ctx()
+        n = tagkind.record_sites(c, fx, "recfx::Store::" + f, "recfx::Rec", "bytes", ["packed", "stage"])
+        res[f] = (n, len(c.violations))
+    return res["ok_put"] == (2, 0) and res["ok_put2"] == (2, 0) and res["bad_put"] == (2, 1)
